@@ -1,6 +1,7 @@
 (* Property C13 - position and comment bookkeeping is transparent.  Theorems only. *)
 From MF Require Import Lib.Base Model.GrammarTypes Model.Transformer Model.SlotDoc Model.SlotCheck Model.Api
-  Proofs.SlotsAll Proofs.C13U Proofs.C13U_Comments.
+  Proofs.SlotsAll Proofs.C13U Proofs.C13U_Comments Proofs.LRTyping Proofs.LRTyping_Gkv
+  Proofs.C13C_Parse Proofs.C13C_Erase Proofs.C13C Proofs.C13C_Align.
 
 (* ---- include_position, universally *)
 
@@ -34,15 +35,14 @@ Theorem C13_position_acceptance_on_to_off_partial :
 Proof. exact position_alignment_loads_on_to_off_partial. Qed.
 Print Assumptions C13_position_acceptance_on_to_off_partial.
 
-(* ... and conversely under a shape guard on the parse tree (children of
-   key-value blocks are tokens or pairs) that every tree the parser returns
-   satisfies but for which no grammar-conformance theorem is available: PARTIAL.
-   Without the guard it is false of arbitrary trees ([R] below). *)
+(* ... and conversely: the shape guard the transformer-level argument needs
+   (children of key-value blocks are tokens or pairs) is discharged for every
+   tree the parser returns by the grammar-conformance theorem of the LR driver
+   (Proofs/LRTyping.v).  PARTIAL only in being stated for include_comments=False.
+   For arbitrary trees it is false ([R] below). *)
 Theorem C13_position_acceptance_off_to_on_partial :
-  forall text w,
-    (forall t, parse_tree false text = Ok t -> gkv (canonize (gtree_of t)) = true) ->
-    loads false false text = Ok w -> exists v, loads true false text = Ok v.
-Proof. exact position_alignment_loads_off_to_on_partial. Qed.
+  forall text w, loads false false text = Ok w -> exists v, loads true false text = Ok v.
+Proof. exact position_alignment_loads_off_to_on_unguarded_partial. Qed.
 Print Assumptions C13_position_acceptance_off_to_on_partial.
 
 Theorem C13_position_acceptance_unguarded_refuted :
@@ -50,18 +50,63 @@ Theorem C13_position_acceptance_unguarded_refuted :
 Proof. exact position_alignment_off_to_on_unguarded_refuted. Qed.
 Print Assumptions C13_position_acceptance_unguarded_refuted.
 
-(* ---- include_comments *)
+(* ---- include_comments, universally *)
 
-(* [F] PARTIAL.  Full statement wanted: for EVERY text, the result of loads with
-   include_position and/or include_comments, with the hidden __position__ and
-   __comments__ keys removed at every depth, equals the plain load (and fails
-   exactly when the plain load fails).  Proved here by the kernel for every
-   document of the schema-generated slot product (about 2500 documents x 3 flag
-   combinations, through lexer, LR driver, tree builder with propagate_positions,
-   comment assignment, CommentsTransformer and MapfileTransformer); the
-   universal induction over trees is not done.  The correspondence runs compare
-   the extracted model with the real loads under all four flag combinations on
-   the corpus and on generated documents with comments. *)
+(* [U] the parser: with or without comments the same texts are accepted, with
+   the same error otherwise, the same token stream, and trees of the same shape
+   (node names and tokens; only metas differ) *)
+Theorem C13_parser_comment_mode_same_shape :
+  forall text, res_shape (parse_tree true text) (parse_tree false text).
+Proof. exact parse_tree_comments_shape. Qed.
+Print Assumptions C13_parser_comment_mode_same_shape.
+
+(* [U] for EVERY text and either position mode: when the load with comments and
+   the load without both succeed, they are equal once every __comments__ entry
+   is removed at every depth *)
+Theorem C13_comments_transparent :
+  forall ip text v w, loads ip true text = Ok v -> loads ip false text = Ok w -> strip_cm v = strip_cm w.
+Proof. exact comments_transparent_loads. Qed.
+Print Assumptions C13_comments_transparent.
+
+(* [U] a text that loads with comments loads without ... *)
+Theorem C13_comments_acceptance_on_to_off :
+  forall ip text v, loads ip true text = Ok v -> exists w, loads ip false text = Ok w.
+Proof. exact comments_alignment_loads_on_to_off. Qed.
+Print Assumptions C13_comments_acceptance_on_to_off.
+
+(* [R] ... the converse is false: a key-value entry spelled __comments__ makes
+   the comments run fail (known finding C13-kv-key-named-comments; same on the
+   real loads).  A guarded converse is not proved: PARTIAL. *)
+Theorem C13_comments_acceptance_off_to_on_refuted :
+  exists text, forall ip, (exists w, loads ip false text = Ok w) /\ loads ip true text = Err LarkVisitError.
+Proof. exact comments_alignment_loads_off_to_on_refuted. Qed.
+Print Assumptions C13_comments_acceptance_off_to_on_refuted.
+
+(* ---- all four flag combinations *)
+
+(* [U] THE property on the model, for every text: any two of the four loads that
+   succeed are equal after removing both hidden keys at every depth, and whenever
+   any of them succeeds the plain load succeeds *)
+Theorem C13_bookkeeping_transparent :
+  forall ip ic ip' ic' text v v',
+    loads ip ic text = Ok v -> loads ip' ic' text = Ok v' -> strip_hidden v = strip_hidden v'.
+Proof. exact bookkeeping_transparent_loads_any. Qed.
+Print Assumptions C13_bookkeeping_transparent.
+
+Theorem C13_plain_load_succeeds :
+  forall ip ic text v, loads ip ic text = Ok v -> exists w, loads false false text = Ok w.
+Proof. exact plain_load_succeeds. Qed.
+Print Assumptions C13_plain_load_succeeds.
+
+(* ---- the finite product (kept: it also covers acceptance in every direction on those documents) *)
+
+(* [F] on every document of the schema-generated slot product (about 2500
+   documents x 3 flag combinations, through lexer, LR driver, tree builder with
+   propagate_positions, comment assignment, CommentsTransformer and
+   MapfileTransformer) the four loads agree after removing the hidden keys AND
+   succeed or fail together - the acceptance half that the universal theorems
+   above leave partial (comments off -> on).  The name keeps _partial because it
+   is a finite product. *)
 Theorem C13_bookkeeping_transparent_on_slot_product_partial :
   forall sd, In sd all_slotdocs -> bookkeeping_ok (sd_text sd) = true.
 Proof. exact bookkeeping_all_slots. Qed.
